@@ -1,6 +1,6 @@
 (* Model of the plugin containers and the hook call sites of the root package.
      plugin.go   PluginContainer, newPluginContainer, cloneAndAppendMiddle, AppendLeft,
-                 AppendRight, refresh, pluginSingleContainer.appendLeft/appendRight,
+                 AppendRight, Remove, refresh, pluginSingleContainer.appendLeft/appendRight,
                  the per-stage loops preWriteCall ... postReadReplyBody
      router.go   SubRouter.SubRoute, SubRouter.reg (the Route family), Router.SetUnknownCall/Push,
                  SubRouter.getCall/getPush
@@ -167,12 +167,41 @@ Definition clone (st : pstate) (parent : nat) (ps : list plugin) : option (pstat
     end
   else None.
 
+(* pluginSingleContainer.remove: the first plugin carrying the name is cut out of the list
+   (append(p.plugins[:i], p.plugins[i+1:]...)); a name that is not there is an error that
+   PluginContainer.Remove ignores for left/middle/right. *)
+Fixpoint remove_first (nm : N) (l : list plugin) : list plugin :=
+  match l with
+  | [] => []
+  | p :: r => if N.eqb (p_name p) nm then r else p :: remove_first nm r
+  end.
+Definition has_name (nm : N) (l : list plugin) : bool := existsb (fun p => N.eqb (p_name p) nm) l.
+
+(* PluginContainer.Remove.  Only the peer's global container (index 0) is reachable from user
+   code (Peer.PluginContainer()).  The embedded flat list decides: a name that is not on the
+   global chain is an error and NOTHING changes (a plugin registered with a router group or a
+   handler cannot be removed this way).  Otherwise the name is cut out of the shared left list,
+   the container's own middle list and the shared right list, and the whole tree of derived
+   containers is refreshed.  [deep = false] is the variant that rebuilds the global container
+   only (p.refresh() instead of p.refreshTree()). *)
+Definition remove_op (deep : bool) (st : pstate) (nm : N) : option pstate :=
+  let c0 := get_cont st 0 in
+  if has_name nm (c_flat c0) then
+    let st1 := mkSt (remove_first nm (s_left st)) (remove_first nm (s_right st))
+                    (upd 0 (mkCont (remove_first nm (c_middle c0)) (c_flat c0) (c_kids c0)) (s_conts st))
+                    (s_routers st) (s_handlers st) (s_unk_call st) (s_unk_push st) in
+    if deep then refresh_tree st1 0 else refresh st1 0
+  else Some st.
+(* the error value Remove hands back: true = an error was returned *)
+Definition remove_err (st : pstate) (nm : N) : bool := negb (has_name nm (c_flat (get_cont st 0))).
+
 Inductive op :=
 | OSub (parent : nat) (ps : list plugin)                          (* SubRouter.SubRoute *)
 | ORoute (k : kind) (router : nat) (hid : N) (hstat : Z) (ps : list plugin)  (* SubRouter.reg *)
 | OUnknown (k : kind) (hid : N) (hstat : Z) (ps : list plugin)    (* Peer.SetUnknownCall/Push *)
 | OLeft (ps : list plugin)                                        (* PluginContainer.AppendLeft *)
-| ORight (ps : list plugin).                                      (* PluginContainer.AppendRight *)
+| ORight (ps : list plugin)                                       (* PluginContainer.AppendRight *)
+| ORemove (nm : N).                                               (* PluginContainer.Remove (by name) *)
 
 Definition handler_is (k : kind) (hid : N) (h : handler) : bool :=
   kind_eqb (h_kind h) k && N.eqb (h_id h) hid.
@@ -222,6 +251,7 @@ Definition step (st : pstate) (o : op) : option pstate :=
   | ORight ps =>
       refresh_tree (mkSt (s_left st) (s_right st ++ ps) (s_conts st) (s_routers st)
                          (s_handlers st) (s_unk_call st) (s_unk_push st)) 0
+  | ORemove nm => remove_op true st nm
   end.
 
 (* newPluginContainer + newRouter: one empty global container, the root router on it. *)
@@ -239,6 +269,7 @@ Definition run (ops : list op) : option pstate := run_from init_state ops.
 Definition op_plugins (o : op) : list plugin :=
   match o with
   | OSub _ ps | ORoute _ _ _ _ ps | OUnknown _ _ _ ps | OLeft ps | ORight ps => ps
+  | ORemove _ => []
   end.
 Definition history_plugins (ops : list op) : list plugin := flat_map op_plugins ops.
 
@@ -284,6 +315,11 @@ Definition spec_step (sp : spec) (o : op) : spec :=
       mkSpec (ps ++ sp_left sp) (sp_right sp) (sp_chains sp) (sp_handlers sp) (sp_unk_call sp) (sp_unk_push sp)
   | ORight ps =>
       mkSpec (sp_left sp) (sp_right sp ++ ps) (sp_chains sp) (sp_handlers sp) (sp_unk_call sp) (sp_unk_push sp)
+  | ORemove nm =>     (* only a global plugin can be removed; everything else keeps its place *)
+      if has_name nm (sp_left sp ++ sp_right sp) then
+        mkSpec (remove_first nm (sp_left sp)) (remove_first nm (sp_right sp)) (sp_chains sp)
+               (sp_handlers sp) (sp_unk_call sp) (sp_unk_push sp)
+      else sp
   end.
 
 Definition spec_of (ops : list op) : spec := fold_left spec_step ops spec_init.
@@ -745,6 +781,7 @@ Definition step_prefix (recursive : bool) (st : pstate_prefix) (o : op) : option
                             (spx_routers st) (spx_handlers st))
   | ORight ps => tree (mkStP (sp_heap st) (spx_left st) (spx_right st ++ ps) (spx_conts st)
                              (spx_routers st) (spx_handlers st))
+  | ORemove _ => Some st            (* not needed for the counterexamples *)
   end.
 
 (* make([]Plugin, 0): an empty window with no capacity. *)
@@ -771,3 +808,19 @@ Definition spec_handler_flats (sp : spec) : list (N * list N) :=
 
 Definition handler_flats (st : pstate) : list (N * list N) :=
   map (fun h => (h_id h, map p_name (c_flat (get_cont st (h_cont h))))) (s_handlers st).
+
+(* ====================== Remove with a shallow refresh (variant) ====================== *)
+(* PluginContainer.Remove calling p.refresh() instead of p.refreshTree(): only the global
+   container's list is rebuilt, the containers derived for router groups and handlers keep
+   their cached copy. *)
+Definition step_shallow (st : pstate) (o : op) : option pstate :=
+  match o with
+  | ORemove nm => remove_op false st nm
+  | _ => step st o
+  end.
+Fixpoint run_shallow_from (st : pstate) (ops : list op) : option pstate :=
+  match ops with
+  | [] => Some st
+  | o :: r => match step_shallow st o with Some st' => run_shallow_from st' r | None => None end
+  end.
+Definition run_shallow (ops : list op) : option pstate := run_shallow_from init_state ops.
